@@ -218,6 +218,11 @@ def main(argv=None):
   except HarnessError as e:
     print('harness error: %s' % e)
     return 2
+  except SystemExit as e:
+    # the code under test called sys.exit() somewhere the check does not judge: never a silent exit status
+    traceback.print_exc()
+    print('harness error: SystemExit(%r) escaped from the code under test (inconclusive)' % (e.code,))
+    return 2
   except Violation:
     raise
   except Exception:
